@@ -84,6 +84,36 @@ class OneShot(tuple):
     be iterated only once (a second iteration yields nothing), as in Python."""
 
     consumed = False
+    pos = 0  # elements before this index were taken by next()
+
+
+class NTuple(tuple):
+    """Instance of a typing.NamedTuple subclass defined in the repository: a tuple whose
+    positions also have field names and whose class may define methods."""
+
+    fields: tuple = ()
+    cls: Any = None
+
+    @staticmethod
+    def make(cls: Any, fields: Any, vals: Any) -> "NTuple":
+        r = NTuple(vals)
+        r.fields = tuple(fields)
+        r.cls = cls
+        return r
+
+
+class CtxGen:
+    """The object returned by calling a @contextmanager generator function of the repository."""
+
+    def __init__(self, func: Any, args: Any, kwargs: Any):
+        self.func, self.args, self.kwargs = func, args, kwargs
+
+
+class Repeat:
+    """itertools.repeat(value) without a count: an endless iterable (usable in zip / map)."""
+
+    def __init__(self, value: Any):
+        self.value = value
 
 
 class Maybe:
@@ -161,6 +191,8 @@ class FuncV:
     cls: Any = None  # owning ClassV for methods
     kind: str = "function"  # function | staticmethod | property | classmethod
     pending: List[Any] = field(default_factory=list)  # decorator expressions not yet applied
+    attrs: Dict[str, Any] = field(default_factory=dict)  # attributes stored on the function object
+    wrapped: Any = None  # (expr, env, module) of the argument of @functools.wraps(...)
 
     def __repr__(self) -> str:
         return f"<fn {self.module.name}.{self.qualname}>"
@@ -172,6 +204,7 @@ class ClassV:
     module: Any
     qualname: str
     env: Any = None
+    overrides: Dict[str, Any] = field(default_factory=dict)  # attributes assigned on the class object
 
     def __repr__(self) -> str:
         return f"<class {self.module.name}.{self.qualname}>"
